@@ -130,8 +130,8 @@ func checkC05(c *core.Check) {
 			}
 			used++
 			prefix := fmt.Sprintf("s%04d", si)
-			for _, m := range sets[si].Set {
-				t := mount([]string{prefix}, m.T)
+			for mi, m := range sets[si].Set {
+				t := mountNamed([]string{prefix}, m.T, varLetters[(si+mi*3)%len(varLetters)])
 				pi := aspec.PathItem{Template: t}
 				ds := []decl{}
 				var params []aspec.Param
@@ -149,9 +149,25 @@ func checkC05(c *core.Check) {
 					params = append(params, aspec.Param{In: "path", Name: s.S, Req: true, Schema: sch})
 					ds = append(ds, decl{In: "path", Name: s.S, Type: typ, Req: true})
 				}
+				// declaration order is independent of template order; some parameters are declared at
+				// path-item level or through components.parameters
+				rng.Shuffle(len(params), func(i, j int) { params[i], params[j] = params[j], params[i] })
+				var opParams []aspec.Param
+				for pi2, p := range params {
+					switch rng.Intn(4) {
+					case 0:
+						pi.Params = append(pi.Params, p)
+					case 1:
+						name := fmt.Sprintf("PP%dx%dx%d", si, mi, pi2)
+						a.Parameters = append(a.Parameters, aspec.NamedParam{Name: name, Param: p})
+						opParams = append(opParams, aspec.Param{Ref: name, In: "path", Name: p.Name})
+					default:
+						opParams = append(opParams, p)
+					}
+				}
 				for _, meth := range m.Ms {
 					op := simpleOp(meth, t)
-					op.Params = params
+					op.Params = opParams
 					pi.Ops = append(pi.Ops, op)
 					opsByPkg[id][meth+" "+aspec.TemplateString(t)] = opMeta{tmpl: t, decls: ds}
 				}
